@@ -23,6 +23,9 @@ def run(ctx):
     proved = prove(ctx, MODULES)
     run_coll(ctx, 2000 if q else 300000, 14, "std", oracle_props=["C08"])
     run_coll(ctx, 150 if q else 40000, 12, "general", oracle_props=["C08"], label="general(with faults)")
+    # split_off (range form, in place) is one of the operations C08 is about: its contents / order / capacity
+    # oracles live in the `split` profile of the harness (tagged C16 there)
+    run_coll(ctx, 0, 10, "split", oracle_props=["C08", "C16"], label="split")
     if (not proved or ctx.disagreements) and not ctx.oracle_failures and q:
         ctx.notes.append("proof/correspondence broken: running the thorough-tier search for a failing input")
         run_coll(ctx, 4000, 16, "std", oracle_props=["C08"], seed_offset=1000, label="deep-search")
